@@ -102,6 +102,13 @@ def case_strategy(draw, ctx):
                                            for n in shape]}
     dev_tier = draw(st.sampled_from(["iso", "iso", "diag", "full"]))
     disp_where = draw(st.sampled_from(["none", "device", "box", "box", "both"]))
+    # a quarter of the scenes (rotated per (seed, shard, lane): Hypothesis' first example in every worker is the
+    # all-minimal one) put a dispersive object under a discrete device without dispersive materials — the cells where
+    # "the dispersion coefficients of one device material" means exactly zero and stale coefficients would show
+    rot = int(getattr(ctx, "seed", 0)) * 3 + int(getattr(ctx, "shard", 0)) * 2 + (1 if getattr(ctx, "lane", "") == "f32" else 0)
+    plain_over_dispersive = (draw(st.integers(0, 3)) + rot) % 4 == 1
+    if plain_over_dispersive:
+        disp_where = "box"
     per_axis_poles = draw(st.booleans())
 
     # devices: split the volume along x so they cannot overlap ------------------------------------
@@ -114,6 +121,8 @@ def case_strategy(draw, ctx):
     devices = []
     for i, (rlo, rhi) in enumerate(regions):
         kind = draw(st.sampled_from(["cont", "cont", "disc", "disc", "disc", "etch"]))
+        if plain_over_dispersive and i == 0:
+            kind = "disc"
         chain = draw(st.sampled_from(CONT_CHAINS if kind in ("cont", "etch") else DISC_CHAINS))
         flat = draw(st.integers(0, 2)) if chain.startswith("gauss") else None
         vox, lo, hi = [], [], []
@@ -506,6 +515,16 @@ def body(ctx, case):
                  "box-overlaps-device" if any(
                      all(b["lo"][a] < d["hi"][a] and d["lo"][a] < b["hi"][a] for a in range(3))
                      for b in case["boxes"] for d in devices) else "no-overlap")
+
+    # the class in which stale pole coefficients would survive: a dispersive static object under a discrete device
+    # none of whose materials is dispersive (expected coefficients there: exactly zero)
+    for d in devices:
+        if d["kind"] == "disc" and has_disp and not any(m.get("poles") for m in d["materials"]):
+            under = [b for b in case["boxes"] if b["material"].get("poles")
+                     and all(b["lo"][a] < d["hi"][a] and d["lo"][a] < b["hi"][a] for a in range(3))]
+            if under:
+                ctx.classify("nondispersive-discrete-device-over-dispersive-box")
+                break
 
     arrays, objects = arrays0, objects0
     plist = []
